@@ -95,7 +95,7 @@ def diff(a, b):
     return None
 
 
-def rename(structure, rng):
+def rename(structure, rng, force_pack=False):
     """order-preserving renaming of chains and residue numbers"""
     from rnapolis.common import ResidueAuth, ResidueLabel
     chains = sorted({x.chain for r in structure.residues for x in (r.label, r.auth) if x is not None})
@@ -107,10 +107,19 @@ def rename(structure, rng):
     cmap = dict(zip(chains, pool))
     off, mul = rng.randint(-50, 500), rng.choice([1, 1, 2, 3])
     inv = {}
+    # a third of the renamings number residues in the style "10, 10A, 11, 11A": new number = n // 2, insertion code 'A' for odd n
+    # (floor division is monotone and ' ' < 'A', so the order is preserved); only for structures that carry author identifiers
+    # without insertion codes (the label identifier has no insertion code and keeps distinct numbers)
+    if force_pack:
+        mul = 1
+    pack = (force_pack or rng.random() < 0.34) and all(r.auth is not None and r.auth.icode is None for r in structure.residues)
 
     def ident(label, auth):
         nl = ResidueLabel(cmap[label.chain], label.number * mul + off, label.name) if label is not None else None
-        na = ResidueAuth(cmap[auth.chain], auth.number * mul + off, auth.icode, auth.name) if auth is not None else None
+        na = None
+        if auth is not None:
+            n = auth.number * mul + off
+            na = ResidueAuth(cmap[auth.chain], n // 2, None if n % 2 == 0 else "A", auth.name) if pack else ResidueAuth(cmap[auth.chain], n, auth.icode, auth.name)
         return nl, na
     s2 = G.rebuild(structure, ident_fn=ident)
     for r, r2 in zip(structure.residues, s2.residues):
@@ -176,6 +185,10 @@ def bounded(tier, seed):
         try:
             s2, back = rename(s, rng)
             report(tag, "renaming", diff(base, summary(s2, back)))
+            if all(r.auth is not None and r.auth.icode is None for r in s.residues):
+                ev += 1
+                s2, back = rename(s, rng, force_pack=True)
+                report(tag, "renaming-with-insertion-codes", diff(base, summary(s2, back)))
         except Exception as e:
             report(tag, "renaming", f"raised {type(e).__name__}: {e}")
         # the same atoms as PDB and as mmCIF with residue numbers that fill the four PDB columns (>= 1000 or <= -100)
